@@ -96,6 +96,12 @@ def handle (r : Req) : Option String :=
       some ("|".intercalate ((LCD.cpCandidates k es).map fun c =>
         ",".intercalate (c.map fun (l, v) => toString l ++ ":" ++ showRat v)))
     | none => some "bad-arg"
+  | "cptotal", [isa, fd, stlf, pidx, k] =>
+    match kernelOf k with
+    | some k =>
+      let es := create (isaOf isa) (fieldS fd == "1") { stlf := ratOf stlf, pIdx := ratOf pidx } k
+      some (showRat (LCD.cpTotal k es))
+    | none => some "bad-arg"
   | "speclongest", [infos, edges] =>
     -- infos: L[L[line, lat, loadStage]...]   edges: L[L[src, dst, w]...]  (instruction nodes only)
     match decodeY infos, decodeY edges with
